@@ -376,6 +376,59 @@ func runC16(r *core.Run) {
 			return core.Outcome{Class: c.Layout, Nontrivial: n >= 2, Evals: 2}
 		})
 
+	type twoIdx struct {
+		StartsA []int `json:"starts_a"`
+		EndsA   []int `json:"ends_a"`
+		StartsB []int `json:"starts_b"`
+		EndsB   []int `json:"ends_b"`
+	}
+	core.Clause(r, "two-indexes-alive", core.Opts{Rule: "index A is built and queried, then index B is built (and a third one), then A is queried again, B is queried, A once more: every answer of every index is the brute-force answer for ITS intervals (an index must own what it points to: pooled or reused storage handed back at the end of NewIndex shows here); every ordered pair of lists of 0..2 intervals over {0,1,2,3} plus 4 longer lists; non-trivial = both non-empty"},
+		func(emit func(twoIdx) bool) {
+			type lst struct{ s, e []int }
+			var lists []lst
+			listsOver([]int{0, 1, 2, 3}, 2, func(s, e []int) bool {
+				lists = append(lists, lst{slices.Clone(s), slices.Clone(e)})
+				return true
+			})
+			lists = append(lists, lst{[]int{0, 0, 0, 0, 0, 0}, []int{6, 5, 4, 3, 2, 1}}, lst{[]int{5, 4, 3, 2, 1, 0}, []int{6, 6, 6, 6, 6, 6}},
+				lst{[]int{0, 2, 4, 6, 8, 10, 12, 14}, []int{3, 5, 7, 9, 11, 13, 15, 17}}, lst{[]int{1, 1, 1}, []int{9, 9, 9}})
+			for _, a := range lists {
+				for _, b := range lists {
+					if !emit(twoIdx{a.s, a.e, b.s, b.e}) {
+						return
+					}
+				}
+			}
+		},
+		func(c twoIdx) core.Outcome {
+			var fail string
+			p := catch(func() {
+				a := regions.NewIndex(slices.Clone(c.StartsA), slices.Clone(c.EndsA))
+				if fail = checkIndexAnswers(a, c.StartsA, c.EndsA, "index A alone: "); fail != "" {
+					return
+				}
+				b := regions.NewIndex(slices.Clone(c.StartsB), slices.Clone(c.EndsB))
+				third := regions.NewIndex([]int{7, 7, 7, 7}, []int{9, 9, 9, 9})
+				if fail = checkIndexAnswers(a, c.StartsA, c.EndsA, fmt.Sprintf("index A after index B (starts %v ends %v) and a third one were built: ", c.StartsB, c.EndsB)); fail != "" {
+					return
+				}
+				if fail = checkIndexAnswers(b, c.StartsB, c.EndsB, "index B: "); fail != "" {
+					return
+				}
+				if fail = checkIndexAnswers(third, []int{7, 7, 7, 7}, []int{9, 9, 9, 9}, "third index: "); fail != "" {
+					return
+				}
+				fail = checkIndexAnswers(a, c.StartsA, c.EndsA, "index A at the end: ")
+			})
+			if p != "" {
+				return core.Failf("panic: %s", p)
+			}
+			if fail != "" {
+				return core.Failf("%s", fail)
+			}
+			return core.Outcome{Class: "ok", Nontrivial: len(c.StartsA) > 0 && len(c.StartsB) > 0, Evals: 5}
+		})
+
 	type qCase struct {
 		Starts  []int `json:"starts"`
 		Ends    []int `json:"ends"`
